@@ -143,6 +143,10 @@ def run : List String → Option String
             match sw with
             | some s => [("init", .nat s.init), ("pass1", .nat s.pass1), ("pass2", .nat s.pass2), ("cells", .nat s.cells)]
             | none => [])).render
+  | ["pipeline", h] => do
+    -- C08 ∘ C09: vwsc_to_score(parse_vwsc_file_data(d))
+    let b ← bytesOfHex h
+    some (rJ Score.Score.toJ ((parseVwscFile b).bind Score.vwscToScore))
   | ["toscore", t] => do
     -- C09: vwsc_to_score on a frame table
     let fs ← parseFrames t
